@@ -59,6 +59,7 @@ class PythonStringConcatAnalyzer:
         """
         violations: list[StringConcatViolation] = []
         self._string_variables = set()
+        self._loop_lines = []  # per file: never carried over, even after an aborted walk
         self._non_string_variables = set()
 
         # First pass: identify variables initialized as strings or non-strings
